@@ -16,6 +16,7 @@ import (
 	"os"
 	"reflect"
 	"sort"
+	"strings"
 	"sync"
 
 	"github.com/mark3labs/flyt"
@@ -85,7 +86,13 @@ func (o *Out) WriteScenario(id int, fam, src string, cfg map[string]any, exp []a
 // WriteScenarioX also records the outcome of the Flow.Run differential (engine family):
 // flowrun = the convenience method Flow.Run behaved exactly like flyt.Run on the same scenario.
 func (o *Out) WriteScenarioX(id int, fam, src string, cfg map[string]any, exp []any, evs []Event, flowrun bool) {
-	rec := Event{"scn": id, "fam": fam, "src": src, "cfg": cfg, "hasexp": exp != nil, "h": evs, "flowrun": flowrun}
+	o.WriteScenarioY(id, fam, src, cfg, exp, evs, flowrun, true)
+}
+
+// reent = a run of the same node object nested inside one of the scenario's exec callbacks left the scenario's own
+// events unchanged (and the nested run saw its own values)
+func (o *Out) WriteScenarioY(id int, fam, src string, cfg map[string]any, exp []any, evs []Event, flowrun, reent bool) {
+	rec := Event{"scn": id, "fam": fam, "src": src, "cfg": cfg, "hasexp": exp != nil, "h": evs, "flowrun": flowrun, "reent": reent}
 	if exp != nil {
 		rec["exp"] = exp
 	} else {
@@ -408,11 +415,15 @@ func (r *Registry) Err(tok int) error {
 		return e
 	}
 	var e error
-	sel := tok % 5
+	// consecutive tokens share a flavour pairwise: two attempts in a row may fail with errors of the same dynamic type
+	sel := (tok / 2) % 6
 	if r.MixFlavour {
-		sel = (tok/1000 + tok) % 5 // every flavour occurs at the first attempts of some item
+		sel = (tok/1000 + (tok%1000)/2) % 6 // every flavour occurs at the first attempts of some item
 	}
 	switch sel {
+	case 5:
+		// an error type that cannot be compared with == (a slice of messages, as validation libraries return)
+		e = fieldErrs{fmt.Sprintf("field error %d", tok), "second message"}
 	case 4:
 		// a failure of the callback's own making that wraps a context error although the run's context is live
 		// (a node-local timeout): it is an ordinary error of the callback
@@ -433,6 +444,14 @@ func (r *Registry) Err(tok int) error {
 	}
 	r.errs[tok] = e
 	return e
+}
+
+type fieldErrs []string
+
+func (f fieldErrs) Error() string { return strings.Join(f, "; ") }
+func (f fieldErrs) Is(t error) bool {
+	o, ok := t.(fieldErrs)
+	return ok && len(o) == len(f) && len(f) > 0 && o[0] == f[0]
 }
 
 type joinedErr struct{ err error }
@@ -475,6 +494,9 @@ func (r *Registry) Matches(err error, tok int) bool {
 		return false
 	}
 	switch x := e.(type) {
+	case fieldErrs:
+		var t fieldErrs
+		return errors.As(err, &t) && len(t) > 0 && t[0] == x[0]
 	case tokErrVal:
 		// custom type: found by errors.As, and the value itself by errors.Is (walks joined errors too)
 		var t tokErrVal
